@@ -61,11 +61,16 @@ LEVEL["C10"] = dict(technique=T, text="AbyCodec transcribes the u64/i64 little-e
     "by the integer; decoded images must contain exactly the codec's bytes.", note=TRUST)
 LEVEL["C11"] = dict(technique=T, text="The contract state of the trace specification is a function map-id -> ideal map; every handle (clone, repeated lookup, lookup through a cloned "
     "database handle, with other parameters) denotes its name. Interleaved histories over 2-5 maps of mixed key types (names incl. ones that differ only "
-    "behind a dot) are validated per map; the file digests of the maps not operated on are compared across the others' updates (C11.others).", note=TRUST)
+    "behind a dot) are validated per map; the file digests of the maps not operated on are compared across the others' updates (C11.others). The design "
+    "under the contract (AbyReg: buffered instances, one registry per key type, handles as clones) is model-checked: OneInstance, Aliasing, FlushDurable, "
+    "Registered hold when every getter consults its registry and signatures are distinct; TLC must violate OneInstance when a getter skips the registry "
+    "(MCReg_nolookup) - the class of two seeded changes.", note=TRUST)
 LEVEL["C13"] = dict(technique=T, text="Contract: an open is accepted iff the three files carry the format signature and the signature of the requested key type; otherwise it must "
     "fail (error or panic) and the files stay byte-identical (C13.refused, C13.unchanged). All 20 ordered pairs of key types, files of another type swapped "
     "in for each of the three files, every one of the 16 signature bytes of each file mutated (quick: 4 values each, thorough: all 255), and foreign files "
-    "shorter/longer than a header, each opened in a fresh process. The shared signature of u64 and vu64 is a known finding.", note=TRUST)
+    "shorter/longer than a header, each opened in a fresh process; with one file missing or empty the open is still refused and the files that "
+    "existed stay unchanged. The shared signature of u64 and vu64 is a known finding; in the model it violates TypeSafe (MCDb_d8) and creates a second "
+    "buffered instance over the same files (MCReg_d8: OneInstance violated).", note=TRUST)
 LEVEL["C14"] = dict(technique=T, text="AbyMap defines the bulk calls element-wise (MGetAll, MDelAll, MPutAll) and the string variants through a lossy-decoding table; random batches "
     "(0..200 keys, any order, present/absent, repeats where the property allows them) are spliced into histories on all key types and every result and "
     "the contents afterwards are compared by TLC (C14.bulk_get, C14.bulk_delete, C14.string_variant, C02.content).", note=TRUST + " Lossy decoding is exercised with 0xFF bytes only.")
